@@ -7,6 +7,7 @@ import Proofs.C10Gen
 import Proofs.C10Cache
 import Proofs.C10Split
 import Proofs.C10Fields
+import Proofs.C10Store
 /-!
 # C10 — string, regex and int() builtins obey their defining equations
 
@@ -320,6 +321,19 @@ theorem case_rune_by_rune (tbl : UInt8 → UInt8) (uni : Bytes → Bytes) (s : B
     (∀ b, b < 128 → caseRune tbl uni [b] = [tbl b]) ∧ (∀ b, ¬ b < 128 → caseRune tbl uni [b] = [0xEF, 0xBF, 0xBD]) :=
   ⟨mapCase_eq tbl uni s, caseRune_singleton tbl uni, fun b hb => by simp [caseRune, hb]⟩
 
+/-- split's result array is a function of the pieces only — of (s, sep) — never of what the target held before: in the model
+(as in the code, pinned by `gen_matches_splitStore`) a new map replaces the target. Its keys are exactly 1..n in order, the
+returned value is n = the number of pieces, element i is piece i, and no other key is present. -/
+theorem split_result_fresh (old old' : AwkArray) (parts : List Bytes) :
+    splitStore old parts = splitStore old' parts ∧
+    (splitStore old parts).2 = parts.length ∧
+    (splitStore old parts).1.map (·.1) = (List.range' 1 parts.length).map Key.idx ∧
+    (splitStore old parts).1.map (·.2) = parts ∧
+    (∀ j (h : j < parts.length), arrayGet (splitStore old parts).1 (.idx (1 + j)) = some parts[j]) ∧
+    (∀ b, arrayGet (splitStore old parts).1 (.other b) = none) :=
+  ⟨rfl, storeFrom_length parts 1, storeFrom_keys parts 1, storeFrom_values parts 1,
+    fun j h => storeFrom_get parts 1 j h, fun b => storeFrom_get_other parts 1 b⟩
+
 /-! ### stated, not proved -/
 
 /-- valid UTF-8: every element of the rune decomposition is ASCII or a multi-byte sequence -/
@@ -368,6 +382,7 @@ theorem gen_matches_substrLengthChars : Generated.C10Builtins.substrLengthChars 
 theorem gen_matches_sub : Generated.C10Builtins.sub = Expected.sub := rfl
 theorem gen_matches_splitCases : Generated.C10Builtins.splitCases = Expected.splitCases := rfl
 theorem gen_matches_compileRegex : Generated.C10Builtins.compileRegex = Expected.compileRegex := rfl
+theorem gen_matches_splitStore : Generated.C10Builtins.splitStore = Expected.splitStore := rfl
 theorem gen_matches_maxCachedRegexes : Generated.C10Builtins.maxCachedRegexes = Expected.maxCachedRegexes := rfl
 theorem gen_matches_maxCachedFormats : Generated.C10Builtins.maxCachedFormats = Expected.maxCachedFormats := rfl
 theorem gen_matches_addRegexFlags : Generated.C10Builtins.addRegexFlags = Expected.addRegexFlags := rfl
@@ -396,6 +411,7 @@ example : awkSplitRegex [97, 49, 98, 50, 50] [(1, 2), (3, 5)] = [[97], [98], []]
 example : awkSplitRegex [97, 98] [(0, 0), (1, 1), (2, 2)] = [[97], [98]] ∧ lastStart 0 [(0, 0), (1, 1), (2, 2)] = 2 := by decide
 example : stringsFields [32, 97, 0xC2, 0xA0, 9, 98, 0xff, 32] = [[97], [98, 0xff]] := by decide
 example : mapCase asciiUpper id [97, 0xff, 0xe6, 0x97, 0xa5, 122] = [65, 0xEF, 0xBF, 0xBD, 0xe6, 0x97, 0xa5, 90] := by decide
+example : splitStore [(.other [120], [49]), (.idx 7, [50])] [[97], [], [98]] = ([(.idx 1, [97]), (.idx 2, []), (.idx 3, [98])], 3) := by decide
 example : (RTok.text 120).ok := ⟨by decide, by decide⟩
 example : expand [120] ([RTok.amp, .escAmp, .text 45, .escBs].flatMap RTok.render) = [120, 38, 45, 92] := by decide
 
